@@ -182,17 +182,20 @@ Theorem reader_refines_pk :
     project_kept i (read_model_pk i) = spec_read_pk i.
 Proof. exact reader_refines_pk_lemma. Qed.
 
-(* binary64 model of translate_nmtran_time (tied to the code by EXACT equality of the resulting doubles): when the
-   truncating split of the two clock times loses nothing, the integer nanosecond difference of the two Timestamps is
-   exactly 3600e9 x the calendar difference in hours — so only the two final float divisions (/1e9, /3600) separate
-   the result from the calendar difference; when the split is not exact the result is up to 2 ns early/late
-   (split_truncation_refuted). *)
-Theorem stamp_difference_exact :
-  forall (dn1 dn2 : Z) (tv1 tv2 : Q),
-    split_exact tv1 = true -> split_exact tv2 = true ->
-    Qeq (inject_Z ((dn2 * 86400000000000 + ns_of_hours tv2) - (dn1 * 86400000000000 + ns_of_hours tv1)))
-        (3600000000000 * (inject_Z (dn2 - dn1) * 24 + (tv2 - tv1))).
-Proof. exact stamp_difference_exact_lemma. Qed.
+(* binary64 model of translate_nmtran_time (tied to the code by EXACT equality of the resulting doubles), after fix
+   a9224f5 (one rounding to whole nanoseconds, integer divmod): EVERY clock time h:m (0 <= h < 24, 0 <= m < 60 — the
+   finite domain is closed by evaluation) is held as exactly (h*60+m)*60e9 nanoseconds although h + m/60 is not
+   exact in binary64; so for all day numbers the integer nanosecond difference of two Timestamps is exactly the
+   calendar difference (no guard; the former counter-model is Refuted.split_truncation_fixed). *)
+Theorem clock_split_exact :
+  forall h m : nat, h < 24 -> m < 60 ->
+    ns_of_hours (clock_hours h m) = (Z.of_nat ((h * 60 + m) * 60) * 1000000000)%Z.
+Proof. exact clock_split_exact_lemma. Qed.
+Theorem stamp_difference_clock :
+  forall (dn1 dn2 : Z) (h1 m1 h2 m2 : nat), h1 < 24 -> m1 < 60 -> h2 < 24 -> m2 < 60 ->
+    ((dn2 * 86400000000000 + ns_of_hours (clock_hours h2 m2)) - (dn1 * 86400000000000 + ns_of_hours (clock_hours h1 m1)) =
+     ((dn2 - dn1) * 1440 + (Z.of_nat (h2 * 60 + m2) - Z.of_nat (h1 * 60 + m1))) * 60000000000)%Z.
+Proof. exact stamp_difference_clock_lemma. Qed.
 
 (* raw mode (Model.read_raw_dataset): for every text over the printable alphabet without a TAB at a row end, the
    raw table is the documented lines split into the documented items, each row cut / padded to the width of the
